@@ -79,9 +79,9 @@ type StepResult struct {
 
 // Instance is one fresh world (real implementation + environment + reference model).
 type Instance interface {
-	Enabled() []Event         // events offered in the current state, simplest first
-	Apply(Event) StepResult   // run the event on the implementation, advance the reference, judge
-	Key() string              // canonical state key (see the projection argument next to each implementation)
+	Enabled() []Event       // events offered in the current state, simplest first
+	Apply(Event) StepResult // run the event on the implementation, advance the reference, judge
+	Key() string            // canonical state key (see the projection argument next to each implementation)
 	Close()
 }
 
